@@ -522,7 +522,7 @@ fn mutate_at(t: &mut Tree, target: &mut usize, rng: &mut Rng) -> bool {
         match t {
             Tree::Num(n) => {
                 let is_entity = *n >= (1 << 32);
-                *n = match rng.below(6) {
+                *n = match rng.below(if is_entity { 8 } else { 6 }) {
                     0 => 0,
                     1 => n.wrapping_add(1),
                     2 => n.saturating_sub(1),
@@ -530,6 +530,9 @@ fn mutate_at(t: &mut Tree, target: &mut usize, rng: &mut Rng) -> bool {
                     3 => rng.below(9) as u64,
                     4 if is_entity => (*n & !0xffff_ffffu64) | rng.below(12) as u64, // another small id
                     4 => 99,
+                    // a forged handle: some small id under some non-zero generation (the same id as
+                    // a neighbour under another generation is the interesting case)
+                    6 | 7 => rng.below(6) as u64 | ((1 + rng.below(3) as u64) << 32),
                     _ => {
                         *t = Tree::Seq(vec![]);
                         return true;
